@@ -13,4 +13,12 @@ try:
     vlib.full_binary()
 except Exception as e:
     print("warning: full binary not pre-built:", e)
+# sanitizer build of the whole binary used by C12 (about 4 min the first time)
+import subprocess
+try:
+    r = subprocess.run([sys.executable, os.path.join(vlib.VERIF, "tools", "props", "c12.py"), "--prebuild"],
+                       cwd=vlib.VERIF, stdout=subprocess.PIPE, stderr=subprocess.STDOUT, text=True, timeout=3600)
+    print("c12 prebuild:", "ok" if r.returncode == 0 else "FAILED\n" + r.stdout[-2000:])
+except Exception as e:
+    print("warning: c12 prebuild failed:", e)
 print("setup done")
